@@ -20,6 +20,7 @@ from .. import monitor
 from ..common import rng_for, split
 from ..oracle import g711, shorten_model as M, sphere_writer as SW
 
+OPTIMIZED_SHARDS = 1  # shards run once more in an interpreter started with -O (vf/run.py)
 LEVEL = "exploration"
 TECHNIQUE = "runtime monitor on read_signal(sph) fed by an independent randomised shorten encoder with a reference-decoder self-check; malformed-stream fault injection"
 RULE = (
